@@ -27,12 +27,15 @@ pub struct Poly {
   pub probes: Vec<(f64, f64)>,
   /// probe points anywhere: (lon, lat)
   pub far: Vec<(f64, f64)>,
+  /// probe points on the meridian of a vertex: (vertex index, latitude offset in units of R)
+  #[serde(default)]
+  pub meridian: Vec<(usize, f64)>,
 }
 
 pub fn meta() -> PropMeta {
   PropMeta {
     id: "C12",
-    rule: "cases = polygons built around a centre c (5-class generator, |lat_c| + R + 0.02 < pi/2), R log-uniform in [1e-4, 0.8): convex = 3..=12 vertices on a small circle of radius in [0.3R, R] at jittered azimuths (gaps in (0.05, 0.95*pi)), star-shaped = same azimuths with radii in [0.2R, R]; both winding orders and any starting vertex; depth <= 12 with R*nside <= 128; both modes (approximate / exact); 12..24 probe points within 2R and 4..8 anywhere for the point-in-polygon predicate; non-trivial = polygon overlapping >= 4 cells of the requested depth; distinct by (depth, mode, vertices)",
+    rule: "cases = polygons built around a centre c (5-class generator, |lat_c| + R + 0.02 < pi/2), R log-uniform in [1e-4, 0.8): convex = 3..=12 vertices on a small circle of radius in [0.3R, R] at jittered azimuths (gaps in (0.05, 0.95*pi)), star-shaped = same azimuths with radii in [0.2R, R]; both winding orders and any starting vertex; depth <= 12 with R*nside <= 128; both modes (approximate / exact); 12..24 probe points within 2R, 4..8 anywhere and 4..10 on the exact meridian of a vertex for the point-in-polygon predicate; in one case out of three the vertex longitudes are snapped onto the columns of cell corners of the requested depth; non-trivial = polygon overlapping >= 4 cells of the requested depth; distinct by (depth, mode, vertices)",
     assumptions: vec![
       "inside/outside reference: star-shaped rule around c (in the azimuth wedge of an edge, same side of the edge's great circle as c), identical to the half-space definition for convex polygons; points within 1e-9 rad of an edge plane or of a wedge boundary are not judged".into(),
       "general no-miss soundness of polygon coverage is not claimed by the property and not checked".into(),
@@ -187,23 +190,24 @@ pub fn check(c: &Poly, rec: &mut Rec) -> Result<(), Violation> {
       }
     }
   }
-  // tightness
-  if c.r < 0.3 {
+  // tightness (the cone is (c, R) enlarged, if needed, to contain the vertices moved by the snapping)
+  let r_fit = c.verts.iter().map(|&(l, b)| geom::ang_dist(c.lon_c, c.lat_c, l, b)).fold(c.r, f64::max);
+  if r_fit < 0.3 {
     for x in &cells {
       let n = 1i64 << x.depth;
       let (i, j) = crate::model::lattice::deinterleave(if x.depth == 0 { 0 } else { x.hash & ((1u64 << (2 * x.depth as u32)) - 1) });
       let cell = Cell { b: (x.hash >> (2 * x.depth as u32)) as u8, i, j };
       let (cl, cb) = geom::cell_center_sphere(n, cell);
       let dist = geom::ang_dist(c.lon_c, c.lat_c, cl, cb);
-      let lim = c.r + 2.0 * geom::dmax(x.depth) + 1e-12;
+      let lim = r_fit + 2.0 * geom::dmax(x.depth) + 1e-12;
       rec.metric_max("centre_dist_over_limit", dist / lim);
       if !(dist <= lim) {
-        return Err(f(Violation::new("tight", "cell_too_far", format!("polygon_coverage(depth {}, {:?}, exact={}): cell {}/{} has its centre {:e} rad from the centre of the bounding cone (R = {:e}), more than R + 2*Dmax = {:e}", d, c.verts, c.exact, x.depth, x.hash, dist, c.r, lim)).fact("excess_in_dmax", (dist - lim) / geom::dmax(x.depth))));
+        return Err(f(Violation::new("tight", "cell_too_far", format!("polygon_coverage(depth {}, {:?}, exact={}): cell {}/{} has its centre {:e} rad from the centre of the bounding cone (R = {:e}), more than R + 2*Dmax = {:e}", d, c.verts, c.exact, x.depth, x.hash, dist, r_fit, lim)).fact("excess_in_dmax", (dist - lim) / geom::dmax(x.depth))));
       }
     }
   }
   // point in polygon
-  if c.convex && c.r < 0.3 {
+  if c.convex && r_fit < 0.3 {
     let poly = match catch(|| Polygon::new(c.verts.iter().map(|&(lon, lat)| LonLat { lon, lat }).collect::<Vec<_>>().into_boxed_slice())) {
       Ok(p) => p,
       Err(p) => return Err(f(Violation::new("contains", "panic", format!("Polygon::new({:?}) panicked: {}", c.verts, p)))),
@@ -211,6 +215,11 @@ pub fn check(c: &Poly, rec: &mut Rec) -> Result<(), Violation> {
     let mut pts: Vec<(f64, f64)> = c.probes.iter().map(|&(fr, az)| geom::point_at(c.lon_c, c.lat_c, 2.0 * c.r * fr, az)).collect();
     pts.extend(c.far.iter().copied());
     pts.push((c.lon_c, c.lat_c));
+    // points having bit for bit the longitude of a vertex (ties in the longitude tests of the crate)
+    for &(k, off) in &c.meridian {
+      let (vl, vb) = c.verts[k % c.verts.len()];
+      pts.push((vl, (vb + off * c.r).max(-geom::HALF_PI).min(geom::HALF_PI)));
+    }
     for (l, bb) in pts {
       let want = match m.inside(&V3::from_lonlat(l, bb), true) {
         Some(w) => w,
@@ -252,8 +261,10 @@ fn strat() -> BoxedStrategy<Poly> {
         prop_oneof![3 => Just(maxd), 2 => Just(maxd.saturating_sub(2)), 2 => 0u8..=maxd],
         prop::collection::vec((0.0f64..1.0, 0.0f64..(2.0 * PI)), 12..24),
         prop::collection::vec((0.0f64..(2.0 * PI), -1.0f64..=1.0), 4..8),
+        prop::collection::vec((0usize..12, prop_oneof![3 => -2.5f64..2.5, 1 => -40.0f64..40.0]), 4..10),
+        prop_oneof![2 => Just(0u8), 1 => 1u8..=4],
       )
-        .prop_map(move |(jit, rad, rho, az0, depth, probes, far)| {
+        .prop_map(move |(jit, rad, rho, az0, depth, probes, far, meridian, snap)| {
           let mut verts: Vec<(f64, f64)> = (0..k)
             .map(|i| {
               let az = az0 + (i as f64 + amp * jit[i]) * 2.0 * PI / k as f64;
@@ -261,11 +272,39 @@ fn strat() -> BoxedStrategy<Poly> {
               geom::point_at(lon_c, lat_c, rr, az)
             })
             .collect();
+          // optionally snap the vertex longitudes onto the columns of cell corners of the requested depth
+          // (multiples of pi / 2^(depth+2), or 2..8 times coarser): ties between a vertex and a cell vertex
+          let mut convex = convex;
+          if snap > 0 {
+            let step = PI / (1u64 << (depth as u32 + 2)) as f64 * (1u64 << (snap - 1)) as f64;
+            if step < r / 20.0 {
+              for v in verts.iter_mut() {
+                v.0 = ((v.0 / step).round() * step).rem_euclid(2.0 * PI);
+              }
+              // snapping may break convexity when two vertices are very close: then only the
+              // claims made for every polygon are checked
+              if convex {
+                let cc = V3::from_lonlat(lon_c, lat_c);
+                let vv: Vec<V3> = verts.iter().map(|&(l, b)| V3::from_lonlat(l, b)).collect();
+                for i in 0..k {
+                  let mut nn = vv[i].cross(&vv[(i + 1) % k]).normalized();
+                  if nn.dot(&cc) < 0.0 {
+                    nn = nn.scale(-1.0);
+                  }
+                  for (j, w) in vv.iter().enumerate() {
+                    if j != i && j != (i + 1) % k && w.dot(&nn) < 1e-7 * r {
+                      convex = false;
+                    }
+                  }
+                }
+              }
+            }
+          }
           if reverse {
             verts.reverse();
           }
           verts.rotate_left(rot % k);
-          Poly { depth, exact, lon_c, lat_c, r, convex, verts, probes, far: far.into_iter().map(|(l, z)| (l, z.asin())).collect() }
+          Poly { depth, exact, lon_c, lat_c, r, convex, verts, probes, far: far.into_iter().map(|(l, z)| (l, z.asin())).collect(), meridian }
         })
     })
     .boxed()
